@@ -17,7 +17,9 @@ package main
 
 import (
 	"fmt"
+	"go/ast"
 	"go/constant"
+	"go/token"
 	"go/types"
 	"os"
 	"path/filepath"
@@ -436,6 +438,134 @@ func (V *Verifier) AuxCheck(pkgPath string, props []string) []*Obligation {
 				"the package initialiser creates the table as an empty map (entries come from the init functions only, which are executed)", pkgName+".init"))
 		}
 	}
+	// the package initialiser only initialises: it calls the initialisers of imported packages and the init functions
+	// (which are executed for the table extraction), and builds the initial values of the package-level variables
+	// from allocations and constants — no other call, no closure (a `var _ = func() { codec.Remove(…) … }()` would be
+	// start-up code that nothing here looks at)
+	if init := p.Func("init"); init != nil {
+		bad := ""
+		for _, b := range init.Blocks {
+			for _, in := range b.Instrs {
+				switch in := in.(type) {
+				case *ssa.MakeClosure:
+					bad = "builds a closure"
+				case ssa.CallInstruction:
+					cc := in.Common()
+					if _, isB := cc.Value.(*ssa.Builtin); isB {
+						continue
+					}
+					cal := cc.StaticCallee()
+					if cal == nil {
+						bad = "calls a function value"
+					} else if n := cal.Name(); !(n == "init" || strings.HasPrefix(n, "init#")) {
+						if !(cal.Pkg != nil && purePackages[cal.Pkg.Pkg.Path()]) && !(cal.Pkg == p && accounted[cal] == "" && (&purity{V: V, memo: map[*ssa.Function]string{}, visited: map[*ssa.Function]bool{}}).impure(cal, 0) == "") {
+							bad = "calls " + cal.String()
+						}
+					}
+				}
+			}
+		}
+		d := "the package initialiser only allocates initial values and runs the init functions"
+		if bad != "" {
+			d += ": it " + bad
+		}
+		out = append(out, mkOb(fmt.Sprintf("%s.init/only-initialises", pkgName), props, BoolC(bad == ""), nil, d, pkgName+".init"))
+	}
+	// byte order, syntactically (C03): a function of a little-endian protocol / an …LE function of the library never
+	// mentions binary.BigEndian, and the other way round — whatever the reachability of the code that does
+	for _, f := range fns {
+		want := ""
+		switch {
+		case strings.HasSuffix(pkgPath, "/codec"):
+			if strings.HasSuffix(f.Name(), "LE") {
+				want = "LittleEndian"
+			} else if f.Signature.Recv() == nil && (strings.HasPrefix(f.Name(), "Read") || strings.HasPrefix(f.Name(), "Write")) {
+				want = "BigEndian"
+			}
+		default:
+			ord := protoOrder[pkgName]
+			if rc := f.Signature.Recv(); rc != nil {
+				if n := namedOf(rc.Type()); n != nil {
+					if o, ok := handWritten[pkgName+"."+n.Obj().Name()]; ok {
+						ord = o
+					} else if o, ok := handWritten[n.Obj().Name()]; ok {
+						ord = o
+					}
+				}
+			}
+			if ord == "LE" {
+				want = "LittleEndian"
+			} else if ord == "BE" {
+				want = "BigEndian"
+			}
+		}
+		if want == "" {
+			continue
+		}
+		other := map[string]string{"LittleEndian": "BigEndian", "BigEndian": "LittleEndian"}[want]
+		uses := false
+		var scan func(g *ssa.Function)
+		scan = func(g *ssa.Function) {
+			for _, b := range g.Blocks {
+				for _, in := range b.Instrs {
+					for _, op := range in.Operands(nil) {
+						if gl, ok := (*op).(*ssa.Global); ok && gl.Pkg != nil && gl.Pkg.Pkg.Path() == "encoding/binary" && gl.Name() == other {
+							uses = true
+						}
+					}
+					if mc, ok := in.(*ssa.MakeClosure); ok {
+						if cf, ok := mc.Fn.(*ssa.Function); ok {
+							scan(cf)
+						}
+					}
+				}
+			}
+		}
+		scan(f)
+		if uses {
+			fname := f.Name()
+			if rc := f.Signature.Recv(); rc != nil {
+				fname = "(" + strings.Replace(rc.Type().String(), pkgPath+".", "", 1) + ")." + fname
+			}
+			out = append(out, mkOb(fmt.Sprintf("%s.%s/byteorder/mentions-only-%s", pkgName, fname, want), props, False, nil,
+				"the function belongs to a "+want+" protocol / variant and yet refers to binary."+other+" (on whatever path)", pkgName+"."+fname))
+		}
+	}
+	// order of evaluation: the language does not say whether a variable is read before or after a call in the same
+	// statement; go/ssa (which is what is verified) and the gc compiler (which is what runs) choose differently. A
+	// statement that reads a variable or a field and also calls something that can write it is therefore refused.
+	if lp := V.lpkgs[pkgPath]; lp != nil {
+		for _, file := range lp.Syntax {
+			fname := filepath.Base(lp.Fset.Position(file.Pos()).Filename)
+			if fname == "zz_contracts_verif.go" {
+				continue
+			}
+			ast.Inspect(file, func(n ast.Node) bool {
+				var exprs []ast.Expr
+				switch st := n.(type) {
+				case *ast.AssignStmt:
+					exprs = append(exprs, st.Rhs...)
+					if len(st.Rhs) == 1 && len(st.Lhs) == 1 {
+						if _, isCall := st.Rhs[0].(*ast.CallExpr); isCall {
+							return true // x = f(...): nothing is read beside the call
+						}
+					}
+				case *ast.ReturnStmt:
+					exprs = st.Results
+				case *ast.ExprStmt, *ast.IfStmt, *ast.ForStmt, *ast.BlockStmt, *ast.FuncDecl, *ast.File, *ast.DeclStmt, *ast.GenDecl, *ast.ValueSpec, *ast.RangeStmt, *ast.SwitchStmt, *ast.CaseClause, *ast.DeferStmt, *ast.GoStmt, *ast.FuncLit:
+					return true
+				default:
+					return true
+				}
+				if msg := unorderedReadAndCall(lp.TypesInfo, exprs); msg != "" {
+					pos := lp.Fset.Position(n.Pos())
+					out = append(out, mkOb(fmt.Sprintf("%s/%s:%d/evaluation-order", pkgName, fname, pos.Line), props, False, nil,
+						"the statement reads a variable and calls something that can write it; the order is unspecified and differs between go/ssa and the compiler: "+msg, pkgName))
+				}
+				return true
+			})
+		}
+	}
 	// what is verified is what is built: every non-test Go file of the package directory is part of the loaded
 	// package (no file selected or excluded by a build constraint; the comment-only contract file is the exception)
 	if lp := V.lpkgs[pkgPath]; lp != nil && len(lp.GoFiles) > 0 {
@@ -530,4 +660,133 @@ func (V *Verifier) AuxCheck(pkgPath string, props []string) []*Obligation {
 		out = append(out, mkOb(fmt.Sprintf("%s.%s/pure", pkgName, fname), props, BoolC(r == ""), nil, d, pkgName+"."+fname))
 	}
 	return out
+}
+
+// unorderedReadAndCall looks at the operand expressions of one statement (the right-hand sides of an assignment, the
+// results of a return): if one operand (outside any call) reads variable v or field r.f, and another operand contains
+// a call that is handed &v, or a method call on r (or on something reached from r) — the call may write what the
+// other operand reads. Operands of a single call are not compared with that call itself (arguments are evaluated
+// before the call).
+func unorderedReadAndCall(info *types.Info, exprs []ast.Expr) string {
+	if len(exprs) == 0 {
+		return ""
+	}
+	// split binary expressions into their operands as well
+	var ops []ast.Expr
+	var split func(e ast.Expr)
+	split = func(e ast.Expr) {
+		switch x := e.(type) {
+		case *ast.BinaryExpr:
+			split(x.X)
+			split(x.Y)
+		case *ast.ParenExpr:
+			split(x.X)
+		default:
+			ops = append(ops, e)
+		}
+	}
+	for _, e := range exprs {
+		split(e)
+	}
+	if len(ops) < 2 {
+		// a single call: compare its arguments among themselves (f(p.n, p.bump()))
+		if len(ops) == 1 {
+			if c, ok := ops[0].(*ast.CallExpr); ok {
+				return unorderedReadAndCall(info, c.Args)
+			}
+		}
+		return ""
+	}
+	rootOf := func(e ast.Expr) types.Object {
+		for {
+			switch x := e.(type) {
+			case *ast.SelectorExpr:
+				e = x.X
+			case *ast.IndexExpr:
+				e = x.X
+			case *ast.StarExpr:
+				e = x.X
+			case *ast.ParenExpr:
+				e = x.X
+			case *ast.Ident:
+				if info != nil {
+					if o, ok := info.Uses[x].(*types.Var); ok {
+						return o
+					}
+				}
+				return nil
+			default:
+				return nil
+			}
+		}
+	}
+	type callFact struct {
+		roots map[types.Object]bool // variables whose address is taken for the call, or that are receivers of it
+		src   string
+	}
+	facts := make([]*callFact, len(ops))
+	reads := make([]map[types.Object]bool, len(ops))
+	for i, op := range ops {
+		reads[i] = map[types.Object]bool{}
+		cf := &callFact{roots: map[types.Object]bool{}}
+		ast.Inspect(op, func(n ast.Node) bool {
+			switch x := n.(type) {
+			case *ast.CallExpr:
+				if sel, ok := x.Fun.(*ast.SelectorExpr); ok {
+					if s := info.Selections[sel]; s != nil && s.Kind() == types.MethodVal {
+						if o := rootOf(sel.X); o != nil {
+							if _, isPtr := s.Recv().Underlying().(*types.Pointer); isPtr || s.Obj().(*types.Func).Type().(*types.Signature).Recv() != nil {
+								if _, ptrRecv := s.Obj().(*types.Func).Type().(*types.Signature).Recv().Type().(*types.Pointer); ptrRecv {
+									cf.roots[o] = true
+								}
+							}
+						}
+					}
+				}
+				for _, a := range x.Args {
+					if u, ok := a.(*ast.UnaryExpr); ok && u.Op == token.AND {
+						if o := rootOf(u.X); o != nil {
+							cf.roots[o] = true
+						}
+					}
+				}
+			case *ast.Ident:
+				if o, ok := info.Uses[x].(*types.Var); ok && !o.IsField() {
+					reads[i][o] = true
+				}
+			}
+			return true
+		})
+		if len(cf.roots) > 0 {
+			facts[i] = cf
+		}
+	}
+	for i, cf := range facts {
+		if cf == nil {
+			continue
+		}
+		for j := range ops {
+			if i == j {
+				continue
+			}
+			// operand j is a plain read (no call of its own that would order things)? any read counts
+			for o := range cf.roots {
+				if reads[j][o] {
+					// reading the receiver variable itself only to call a value-independent accessor is common
+					// (buf.Len() next to buf.Write()); restrict to operands that contain no call at all
+					hasCall := false
+					ast.Inspect(ops[j], func(n ast.Node) bool {
+						if _, ok := n.(*ast.CallExpr); ok {
+							hasCall = true
+						}
+						return true
+					})
+					if !hasCall {
+						return fmt.Sprintf("%s is read by one operand and may be written by a call in another", o.Name())
+					}
+				}
+			}
+		}
+	}
+	return ""
 }
